@@ -23,6 +23,7 @@ package c38
 import (
 	"bytes"
 	"encoding/base64"
+	"encoding/binary"
 	"errors"
 	"fmt"
 	"io"
@@ -31,7 +32,9 @@ import (
 	"path/filepath"
 	"sort"
 	"strings"
+	"sync"
 	"sync/atomic"
+	"syscall"
 	"time"
 
 	"github.com/gnolang/gno/tm2/pkg/amino"
@@ -186,11 +189,19 @@ func randMsg(r *rand.Rand, maxPayload int) (walm.WALMessage, string) {
 	}
 }
 
-func peerMsg(r *rand.Rand, n int) PeerMsg {
-	p := make([]byte, n)
-	for i := range p {
+func fill(r *rand.Rand, p []byte) {
+	i := 0
+	for ; i+8 <= len(p); i += 8 {
+		binary.LittleEndian.PutUint64(p[i:], r.Uint64())
+	}
+	for ; i < len(p); i++ {
 		p[i] = byte(r.UintN(256))
 	}
+}
+
+func peerMsg(r *rand.Rand, n int) PeerMsg {
+	p := make([]byte, n)
+	fill(r, p)
 	kinds := []string{"vote", "proposal", "blockpart", ""}
 	return PeerMsg{Kind: kinds[r.IntN(len(kinds))], Payload: p, PeerID: fmt.Sprintf("g1peer%04d", r.IntN(10000))}
 }
@@ -209,9 +220,7 @@ func sizedPeerMsg(r *rand.Rand, t time.Time, target int) *elem {
 	n := target - 40
 	for tries := 0; tries < 64 && n >= 0; tries++ {
 		m := PeerMsg{Kind: "blockpart", Payload: make([]byte, n), PeerID: "g1peer"}
-		for i := range m.Payload {
-			m.Payload[i] = byte(r.UintN(256))
-		}
+		fill(r, m.Payload)
 		e := mkElem(t, m, "peer")
 		d := len(e.twm) - target
 		if d == 0 {
@@ -547,6 +556,38 @@ func (rn *runner) checkPrefix(phase string, outs []readOut, final error, pv any,
 	}
 }
 
+// parallelFor runs f(0..n-1) on w goroutines (panics propagate to the caller).
+func parallelFor(n, w int, f func(j int)) {
+	var wg sync.WaitGroup
+	var next atomic.Int64
+	var pmu sync.Mutex
+	var perr any
+	for g := 0; g < w; g++ {
+		wg.Add(1)
+		go func() {
+			defer wg.Done()
+			defer func() {
+				if r := recover(); r != nil {
+					pmu.Lock()
+					perr = r
+					pmu.Unlock()
+				}
+			}()
+			for {
+				j := int(next.Add(1)) - 1
+				if j >= n {
+					return
+				}
+				f(j)
+			}
+		}()
+	}
+	wg.Wait()
+	if perr != nil {
+		panic(perr)
+	}
+}
+
 func at(es []*elem, k int) any {
 	if k < len(es) {
 		return es[k].String()
@@ -570,7 +611,7 @@ func (rn *runner) phaseTruncate(i int, r *rand.Rand) {
 	case 4:
 		target, maxPayload = 2000, 100
 	default:
-		target, maxPayload = 60000, 20000
+		target, maxPayload = c.N(36000, 60000), c.N(12000, 20000)
 	}
 	big := !c.Quick() && i%6 == 5 && i%12 == 11
 	if big {
@@ -625,18 +666,23 @@ func (rn *runner) phaseTruncate(i int, r *rand.Rand) {
 			return map[string]any{"log": logKey, "total": total, "truncate_at": L, "head_limit": g.limit, "elements": seqStr(g.es), "files": len(g.files)}
 		}
 	}
-	// in-memory, every L
+	// in-memory, every L (split over goroutines: one 64 KiB log is ~2 GB of decoding)
+	var Ls []int
 	for L := 0; L <= total; L++ {
 		if stride > 1 && L%stride != 0 && !boundary[L] {
 			continue
 		}
+		Ls = append(Ls, L)
+	}
+	parallelFor(len(Ls), 6, func(j int) {
+		L := Ls[j]
 		complete := sort.SearchInts(ends, L+1) // number of ends <= L
 		outs, final, pv := readAll(bytes.NewReader(data[:L]), g.maxSize, false)
 		rn.checkPrefix("mem", outs, final, pv, g.es, complete, L, w(L))
 		mid := complete < len(ends) && L > 0 && (complete == 0 || ends[complete-1] != L)
 		c.Case(fmt.Sprintf("trunc/%s/%d", logKey, L), mid)
-	}
-	c.Count("truncation_points_mem", (total/stride)+1)
+	})
+	c.Count("truncation_points_mem", len(Ls))
 	// on disk through the real group reader: boundaries +-1, file boundaries, stride
 	diskStride := total/c.N(40, 400) + 1
 	dir := rn.newDir("trunc")
@@ -1276,16 +1322,23 @@ func (rn *runner) searchOne(wal walm.WAL, es []*elem, idx int, opt *walm.WALSear
 	c.Count("search_height_fully_readable", 1)
 }
 
+func cpuSeconds() float64 {
+	var ru syscall.Rusage
+	syscall.Getrusage(syscall.RUSAGE_SELF, &ru)
+	return float64(ru.Utime.Sec+ru.Stime.Sec) + float64(ru.Utime.Usec+ru.Stime.Usec)/1e6
+}
+
 func run(c *vf.Ctx) {
 	rn := &runner{c: c}
 	workers := 12
+	defer func() { c.Logf("done (cpu %.1fs)", cpuSeconds()) }()
 	c.Logf("phase A codec")
-	c.Parallel(c.N(140, 1400), workers, 1000, rn.phaseCodec)
-	c.Logf("phase B truncation")
+	c.Parallel(c.N(100, 1400), workers, 1000, rn.phaseCodec)
+	c.Logf("phase B truncation (cpu %.1fs)", cpuSeconds())
 	c.Parallel(c.N(10, 48), workers, 100000, rn.phaseTruncate)
-	c.Logf("phase C corruption")
+	c.Logf("phase C corruption (cpu %.1fs)", cpuSeconds())
 	c.Parallel(c.N(10, 100), workers, 200000, rn.phaseCorrupt)
-	c.Logf("phase D rotation + search")
+	c.Logf("phase D rotation + search (cpu %.1fs)", cpuSeconds())
 	c.Parallel(c.N(60, 400), workers, 300000, rn.phaseSearch)
 
 	c.Assume("message kinds: the consensus kinds (msgInfo, timeoutInfo, newRoundStepInfo) are unexported; four harness kinds with the same shapes are registered with amino - the WAL treats Msg as an opaque registered type")
